@@ -46,6 +46,7 @@ fn gen(rng: &mut Rng, _i: u64) -> String {
 	let wf = rng.chance(7, 10);
 	let mut pokes: Vec<(usize, Vec<u8>)> = Vec::new();
 	let mut planted = false;
+	let mut planted2 = false;
 	let len: usize;
 	if wf {
 		// ---- well-formed images: 1..96 sections, VS <,=,> SRD, empty raw data, alignment combinations
@@ -141,6 +142,55 @@ fn gen(rng: &mut Rng, _i: u64) -> String {
 				pokes.push(((sprd + base_off) as usize, blob));
 			}
 		}
+		// a second blob in another roomy section (third layer of the property): a three-level resource tree with one data
+		// entry, a debug directory of two entries (a CodeView RSDS payload, an unknown type) and an exception table of one
+		// function with its UNWIND_INFO.  Mostly inside min(VS,SRD); the debug payload is mostly CONSISTENT (PointerToRawData
+		// is the file offset of AddressOfRawData), sometimes in the overlay with AddressOfRawData = 0, sometimes off by 4.
+		let first_roomy = (0..n).find(|&k| spec.secs[k].srd >= 0x100 && spec.secs[k].vs >= 0x40);
+		let roomy2: Vec<usize> = (0..n).filter(|&k| spec.secs[k].srd >= 0xE0 && spec.secs[k].vs >= 0x40 && !(planted && Some(k) == first_roomy)).collect();
+		if let Some(&k2) = roomy2.last() {
+			if rng.chance(3, 5) {
+				planted2 = true;
+				let (sva, sprd, ssrd) = (spec.secs[k2].va, spec.secs[k2].prd, spec.secs[k2].srd);
+				let lim = spec.secs[k2].vs.min(ssrd).max(0x40);
+				let base_off = if lim > 0xD0 && rng.chance(3, 4) { (rng.below((lim - 0xD0) as u64 + 1) as u32) & !7 } else { (rng.below(ssrd as u64) as u32) & !7 };
+				let r2 = sva + base_off;
+				let f2 = sprd + base_off;
+				let le32 = |x: u32| x.to_le_bytes().to_vec();
+				let mut blob: Vec<u8> = Vec::new();
+				// resources: root -> type 16 -> name 1 -> language 1033 -> data entry -> 8 bytes
+				let dir = |blob: &mut Vec<u8>, id: u32, target: u32| { blob.extend_from_slice(&[0u8; 12]); blob.extend_from_slice(&[0, 0, 1, 0]); blob.extend(id.to_le_bytes()); blob.extend(target.to_le_bytes()); };
+				dir(&mut blob, 16, 0x8000_0000 | 24);
+				dir(&mut blob, 1, 0x8000_0000 | 48);
+				dir(&mut blob, 1033, 72);
+				for v in [r2 + 88, 8u32, 1252, 0] { blob.extend(le32(v)); }
+				blob.extend_from_slice(b"RESDATA!");
+				// debug: the RSDS payload (32 bytes) and the directory (2 x 28 bytes)
+				let mut payload: Vec<u8> = b"RSDS".to_vec();
+				payload.extend((1u8..=16).collect::<Vec<u8>>());
+				payload.extend(le32(3));
+				payload.extend_from_slice(b"x.pdb\0\0\0");
+				let pay = blob.len() as u32;
+				blob.extend_from_slice(&payload);
+				let overlay = len.saturating_sub(prd as usize);
+				let (addr0, ptr0) = match rng.below(8) {
+					0 if overlay >= 32 => { pokes.push((prd as usize, payload.clone())); (0u32, prd) },
+					1 => (r2 + pay, f2 + pay + 4),
+					_ => (r2 + pay, f2 + pay),
+				};
+				let dbg = blob.len() as u32;
+				for v in [0u32, 0x5000_0000, 0, 2, 32, addr0, ptr0] { blob.extend(le32(v)); }
+				for v in [0u32, 0x5000_0001, 0, 99, 8, r2 + 88, f2 + 88] { blob.extend(le32(v)); }
+				// exception: one RUNTIME_FUNCTION and its UNWIND_INFO (version 1, 2 code slots)
+				let exc = blob.len() as u32;
+				for v in [sva, sva + 0x10, r2 + exc + 12] { blob.extend(le32(v)); }
+				blob.extend_from_slice(&[0x01, 0x04, 0x02, 0x00, 0x04, 0x42, 0x01, 0x50]);
+				dirs[2] = (r2, match rng.below(8) { 0 => 80, 1 => 96 + rng.below(0x200) as u32, 2 => 16, _ => 96 });
+				dirs[6] = (r2 + dbg, 56);
+				dirs[3] = (r2 + exc, 12);
+				pokes.push((f2 as usize, blob));
+			}
+		}
 	}
 	else {
 		// ---- accepted-but-odd: the shapes of gen_sections (overlaps, raw data outside the file, wrapping
@@ -196,6 +246,13 @@ fn gen(rng: &mut Rng, _i: u64) -> String {
 		qs.push("i:0".to_string());
 		qs.push("b:0".to_string());
 	}
+	// third layer: resources (traversal, fsck, lookup), debug directory with payloads and entries, exception directory with
+	// function bytes and unwind info - each on both representations
+	if planted2 || rng.chance(1, 4) {
+		qs.push("r:0".to_string());
+		qs.push("m:0".to_string());
+		qs.push("u:0".to_string());
+	}
 	format!("conv fmt={} wf={} {} soh={} soi={} secs={} q={}", if pe64 { 64 } else { 32 }, wf as u8, img.encode(), spec.soh, spec.soi, secs_field(&spec.secs), join(&qs, ","))
 }
 
@@ -247,9 +304,118 @@ macro_rules! run_conv {
 				},
 			}
 		}
+		// the resource tree: section length, root, fsck, the traversal (4 levels, 64 entries; data entries with their first
+		// 16 bytes), find_resource(VERSION, 1).  Offsets are relative to the start of the resource section.
+		fn rq<'a, P: $m::Pe<'a>>(pe: P) -> String {
+			use pelite::resources::{Directory, Entry, Name, FindError};
+			let res = match pe.resources() { Ok(r) => r, Err(e) => return format!("e:{:?}", e) };
+			let dd = pe.data_directory()[2];
+			let sect = pe.slice_bytes(dd.VirtualAddress).expect("harness: resources() succeeded, slice_bytes must");
+			let slen = (dd.Size as usize).min(sect.len());
+			let base = sect.as_ptr() as usize;
+			fn off(base: usize, slen: usize, p: usize) -> usize {
+				let o = p.wrapping_sub(base);
+				assert!(o <= slen, "harness: pointer outside the resource section");
+				o
+			}
+			fn show_name(n: Name<'_>) -> String {
+				match n {
+					Name::Id(id) => format!("i{}", id),
+					Name::Wide(ws) => format!("w{}", ws.iter().map(|w| format!("{:04x}", w)).collect::<Vec<_>>().join(".")),
+					Name::Str(s) => format!("s{}", hex(s.as_bytes())),
+				}
+			}
+			fn walk(base: usize, slen: usize, dir: Directory<'_>, lvl: u32, depth: u32, budget: &mut u64, out: &mut Vec<String>) {
+				if depth == 0 { out.push("cut".into()); return; }
+				let named: Vec<usize> = dir.named_entries().map(|e| e.image() as *const _ as usize).collect();
+				for e in dir.entries() {
+					if *budget == 0 { out.push("stop".into()); break; }
+					*budget -= 1;
+					let p = e.image() as *const _ as usize;
+					let eo = off(base, slen, p);
+					let flag = if named.contains(&p) { "n" } else { "i" };
+					let nm = match e.name() { Ok(n) => show_name(n), Err(err) => format!("x{:?}", err) };
+					let isdir = e.is_dir() as u8;
+					match e.entry() {
+						Ok(Entry::Directory(d)) => {
+							out.push(format!("{}:{}:{}:{}:{}:D/{}", lvl, eo, flag, nm, isdir, off(base, slen, d.image() as *const _ as usize)));
+							walk(base, slen, d, lvl + 1, depth - 1, budget, out);
+						},
+						Ok(Entry::DataEntry(d)) => {
+							let b = match d.bytes() {
+								Ok(b) => { let o = off(base, slen, b.as_ptr() as usize); assert!(b.len() <= slen - o, "harness: data outside the resource section"); format!("{}/{}/{}", o, b.len(), hex(&b[..b.len().min(16)])) },
+								Err(err) => format!("e{:?}", err),
+							};
+							out.push(format!("{}:{}:{}:{}:{}:F/{}/{}/{}/{}", lvl, eo, flag, nm, isdir, off(base, slen, d.image() as *const _ as usize), b, d.size(), d.code_page()));
+						},
+						Err(err) => out.push(format!("{}:{}:{}:{}:{}:X/{:?}", lvl, eo, flag, nm, isdir, err)),
+					}
+				}
+			}
+			let mut items: Vec<String> = Vec::new();
+			let roots = match res.root() {
+				Ok(d) => { let mut b = 64u64; walk(base, slen, d, 0, 4, &mut b, &mut items); format!("ok{}", off(base, slen, d.image() as *const _ as usize)) },
+				Err(e) => format!("e{:?}", e),
+			};
+			let fsck = match res.fsck() { Ok(()) => "ok".to_string(), Err(e) => format!("e{:?}", e) };
+			let ver = match res.find_resource(&[Name::VERSION, Name::Id(1)]) {
+				Ok(b) => format!("R.{}.{}", off(base, slen, b.as_ptr() as usize), b.len()),
+				Err(FindError::Pe(e)) => format!("ePe.{:?}", e),
+				Err(e) => format!("e{:?}", e),
+			};
+			format!("ok:{};{};{};{};{}", slen, roots, fsck, join(&items, "+"), ver)
+		}
+		// the debug directory: per entry the fields, Dir::data (length and first 40 bytes) and Dir::entry
+		fn mq<'a, P: $m::Pe<'a>>(pe: P) -> String {
+			use $m::debug::{CodeView, Entry};
+			let dbg = match pe.debug() { Ok(d) => d, Err(e) => return format!("e:{:?}", e) };
+			let raw = |p: *const u8, n: usize| -> String { hex(unsafe { std::slice::from_raw_parts(p, n) }) };
+			let es: Vec<String> = dbg.iter().take(8).map(|d| {
+				let im = d.image();
+				let data = match d.data() { Some(b) => format!("d{}.{}", b.len(), hex(&b[..b.len().min(40)])), None => "none".to_string() };
+				let ent = match d.entry() {
+					Ok(Entry::CodeView(CodeView::Cv20 { image, pdb_file_name })) => format!("cv20.{}.{}", raw(image as *const _ as *const u8, 16), hex(pdb_file_name.c_str())),
+					Ok(Entry::CodeView(CodeView::Cv70 { image, pdb_file_name })) => format!("cv70.{}.{}", raw(image as *const _ as *const u8, 24), hex(pdb_file_name.c_str())),
+					Ok(Entry::Dbg(g)) => format!("dbg.{}", raw(g.image() as *const _ as *const u8, 12)),
+					Ok(Entry::Pgo(g)) => format!("pgo.{}", g.image().len()),
+					Ok(Entry::Unknown(u)) => format!("unk.{}", match u { Some(b) => format!("d{}.{}", b.len(), hex(&b[..b.len().min(40)])), None => "none".to_string() }),
+					Err(e) => format!("e{:?}", e),
+				};
+				format!("{}.{}.{}.{}/{}/{}", im.Type, im.SizeOfData, im.AddressOfRawData, im.PointerToRawData, data, ent)
+			}).collect();
+			format!("ok:{};{}", dbg.image().len(), join(&es, ";"))
+		}
+		// the exception directory: per function the RUNTIME_FUNCTION, Function::bytes and Function::unwind_info
+		fn uq<'a, P: $m::Pe<'a>>(pe: P) -> String {
+			let exc = match pe.exception() { Ok(x) => x, Err(e) => return format!("e:{:?}", e) };
+			let fs: Vec<String> = exc.functions().take(8).map(|f| {
+				let im = f.image();
+				let by = match f.bytes() { Ok(b) => format!("b{}.{}", b.len(), hex(&b[..b.len().min(8)])), Err(e) => format!("e{:?}", e) };
+				let uw = match f.unwind_info() {
+					Ok(u) => {
+						let codes = u.unwind_codes();
+						let cb: Vec<u8> = codes.iter().flat_map(|c| [c.CodeOffset, c.UnwindOpInfo]).collect();
+						format!("u{}.{}.{}.{}.{}.{}.{}", u.version(), u.flags(), u.size_of_prolog(), u.image().CountOfCodes, u.frame_register(), u.frame_offset(), hex(&cb))
+					},
+					Err(e) => format!("e{:?}", e),
+				};
+				format!("{}.{}.{}/{}/{}", im.BeginAddress, im.EndAddress, im.UnwindData, by, uw)
+			}).collect();
+			format!("ok:{};{}", exc.image().len(), join(&fs, ";"))
+		}
 		let mut out: Vec<String> = Vec::new();
 		for q in $qs {
 			let p: Vec<&str> = q.split(':').collect();
+			if p[0] == "r" || p[0] == "m" || p[0] == "u" {
+				let (sf, sv) = match p[0] {
+					"r" => (rq(file), match view { Some(w) => rq(w), None => "-".to_string() }),
+					"m" => (mq(file), match view { Some(w) => mq(w), None => "-".to_string() }),
+					_ => (uq(file), match view { Some(w) => uq(w), None => "-".to_string() }),
+				};
+				let eq = (sf == sv) as u8;
+				out.push(format!("{}|{}|{}", sf, sv, eq));
+				continue;
+			}
 			if p[0] == "x" || p[0] == "i" || p[0] == "b" {
 				let sf = dq(file, p[0]);
 				let sv = match view { Some(w) => dq(w, p[0]), None => "-".to_string() };
